@@ -227,19 +227,37 @@ func checkC16(c *Ctx) {
 	fh := c.P.Func(authPkg, "FileHandler")
 	auth := c.authHandlerOf(authPkg, "FileHandler")
 	if r5.Anchor(fh != nil, "auth.FileHandler") && r5.Anchor(auth != nil, "Authenticate of the handler built by auth.FileHandler") {
-		// the record type: the element type of the table that gets sorted (whatever its name)
+		// the record type: the element type of the table the lookup binary-searches (whatever its name)
 		var recType types.Type
 		isRec := func(t types.Type) bool { return recType != nil && types.Identical(derefT(t), recType) }
 		var lessFields, predFields []string
 		stable := c.P.FuncObj("sort", "SliceStable")
 		slice := c.P.FuncObj("sort", "Slice")
 		srt := c.P.FuncObj("sort", "Sort")
-		n := 0
-		for _, call := range c.callsToDeep(fh, 3, stable, slice, srt) {
-			n++
-			if sl, ok := boxedType(call.Arg(0)).Underlying().(*types.Slice); ok {
-				recType = derefT(sl.Elem())
+		search := c.P.FuncObj("sort", "Search")
+		var preds []*ssa.Function
+		for _, call := range c.callsToDeep(auth, 3, search) {
+			if pf := closureArg(call.Arg(1)); pf != nil {
+				preds = append(preds, pf)
+				for _, bb := range pf.Blocks {
+					for _, in := range bb.Instrs {
+						if ia, ok := in.(*ssa.IndexAddr); ok {
+							if sl, ok := ia.X.Type().Underlying().(*types.Slice); ok {
+								if _, isStruct := derefT(sl.Elem()).Underlying().(*types.Struct); isStruct {
+									recType = derefT(sl.Elem())
+								}
+							}
+						}
+					}
+				}
 			}
+		}
+		for _, pf := range preds {
+			predFields = append(predFields, fieldsRead(pf, isRec)...)
+		}
+		n := 0
+		sortsOther := ""
+		for _, call := range c.callsToDeep(fh, 3, stable, slice, srt) {
 			var less *ssa.Function
 			if lf := closureArg(call.Arg(1)); lf != nil {
 				less = lf
@@ -253,20 +271,21 @@ func checkC16(c *Ctx) {
 					}
 				}
 			}
+			if sl, ok := boxedType(call.Arg(0)).Underlying().(*types.Slice); ok && recType != nil && !types.Identical(derefT(sl.Elem()), recType) {
+				sortsOther = types.TypeString(sl, func(p *types.Package) string { return p.Name() })
+				continue // sorts something else than the table that is searched
+			}
+			n++
 			if less != nil {
 				lessFields = append(lessFields, fieldsRead(less, isRec)...)
 				c.R.Fn(c.fname(less))
 			}
 		}
-		search := c.P.FuncObj("sort", "Search")
-		for _, call := range c.callsToDeep(auth, 3, search) {
-			if pf := closureArg(call.Arg(1)); pf != nil {
-				predFields = append(predFields, fieldsRead(pf, isRec)...)
-			}
-		}
 		key := "sort key of the table built by auth.FileHandler vs search key of its Authenticate"
 		switch {
-		case n == 0:
+		case n == 0 && len(predFields) > 0 && sortsOther != "":
+			r5.Fail(key, c.where(fh, fh), "the loader sorts a "+sortsOther+", not the table of records the lookup binary-searches: the records end up in whatever order the sorted lines produce, not in the order of the searched field")
+		case n == 0 && len(predFields) > 0:
 			r5.Fail(key, c.where(fh, fh), "the table is never sorted although the lookup is a binary search")
 		case len(predFields) == 0:
 			r5.OK(key, c.where(auth, auth), "lookup is not a binary search over record fields (nothing to agree with)")
